@@ -187,6 +187,9 @@ func describeN(v ssa.Value, depth int) string {
 	case *ssa.TypeAssert:
 		return d(x.X) + ".(" + shorten(types.TypeString(x.AssertedType, nil)) + ")"
 	case *ssa.Slice:
+		if s, ok := byteLiteral(x); ok {
+			return s
+		}
 		lo, hi := "", ""
 		if x.Low != nil {
 			lo = d(x.Low)
